@@ -103,6 +103,15 @@ def _frame_in_queue_get(frame):
     return False, None, None
 
 
+def _stack_names(frame, limit=12):
+    out = []
+    f = frame
+    while f is not None and len(out) < limit:
+        out.append(f.f_code.co_name)
+        f = f.f_back
+    return out
+
+
 def call_with_oracle(fn, wall_cap=120.0, grace=0.7, timed_patience=60.0, expected_children=None, exit_patience=None):
     """Runs fn() in a daemon thread and decides: returned / raised / deadlock / undecided.
 
@@ -152,6 +161,7 @@ def call_with_oracle(fn, wall_cap=120.0, grace=0.7, timed_patience=60.0, expecte
                     except Exception:
                         pass
                 return {"how": "blocked_after_death", "wall": now - t0,
+                        "blocked_in": _stack_names(sys._current_frames().get(t.ident)),
                         "detail": "a worker died %.1fs ago, %d worker(s) alive and silent, the call has neither returned "
                                   "nor raised" % (now - first_exit, alive)}
         if not kids:
